@@ -17,7 +17,7 @@ static FILE *chunk_f[MAXCH];
 static size_t chunk_sz[MAXCH];
 static unsigned char chunk_data[MAXCH][MAXCP];
 static unsigned n_chunks;
-static FILE fake_files[4];
+static FILE fake_files[6];
 
 /* ---- VERIF_STUB stdio / OS */
 size_t fwrite(const void *p, size_t sz, size_t n, FILE *f)
@@ -61,17 +61,17 @@ int gettimeofday(struct timeval *tv, void *tz) { (void)tz; tv->tv_sec = (long)(n
 int mem_stat_setup(void) { return 0; }
 size_t mem_stat_rss_max_get(void) { return nondet_ulong(); }
 size_t mem_stat_rss_current_get(void) { return nondet_ulong(); }
-FILE *io_file_tmp_get(void) { return &fake_files[3]; }
-static int64_t load_size[4];
+FILE *io_file_tmp_get(void) { return &fake_files[5]; }
+static int64_t load_size[6];
 void *file_memory_load(FILE *f, int64_t *sz)
 {
 	unsigned k = (unsigned)(f - fake_files);
-	*sz = load_size[k < 4 ? k : 0];
+	*sz = load_size[k < 6 ? k : 0];
 	void *b = malloc(64);
 	VASSUME(b != NULL);
 	return b;
 }
-FILE *file_open(const char *t, const char *fmt, ...) { (void)t; (void)fmt; return &fake_files[2]; }
+FILE *file_open(const char *t, const char *fmt, ...) { (void)t; (void)fmt; return &fake_files[4]; }
 void vlogger(enum log_level l, char *f, unsigned n, const char *fmt, ...) { (void)l; (void)f; (void)n; (void)fmt; }
 void mpi_blocking_data_send(const void *d, int s, nid_t dst) { (void)d; (void)s; (void)dst; }
 /* VERIF_STUB mpi_blocking_data_rcv: rank `src` sends its struct stats_global (announcing slave_threads threads), then its
@@ -104,11 +104,12 @@ static void env_reset(void)
 	n_chunks = 0;
 	global_config.stats_file = "out";
 	global_config.log_level = LOG_SILENT;
-	static FILE *tmps[2];
+	static FILE *tmps[3];
 	tmps[0] = &fake_files[0];
 	tmps[1] = &fake_files[1];
+	tmps[2] = &fake_files[2];
 	stats_tmps = tmps;
-	stats_node_tmp = &fake_files[2];
+	stats_node_tmp = &fake_files[3];
 }
 
 /* stats_take: exactly one counter moves, by exactly the sample */
@@ -137,7 +138,7 @@ void h_stats_on_gvt(void)
 	VIN(simtime_t, gvt);
 	VIN(unsigned, g);
 	VIN(bool, enabled);
-	VASSUME(in_rid < 2 && g < STATS_COUNT && g != STATS_REAL_TIME_GVT && gvt == gvt);
+	VASSUME(in_rid < 3 && g < STATS_COUNT && g != STATS_REAL_TIME_GVT && gvt == gvt);
 	rid = in_rid;
 	nid = 0;
 	if(!enabled)
@@ -171,13 +172,15 @@ void h_final_write(void)
 	VIN(int64_t, node_sz);
 	VIN(int64_t, t0_sz);
 	VIN(int64_t, t1_sz);
-	VASSUME(threads >= 1 && threads <= 2 && node_sz >= 0 && node_sz <= 64 && t0_sz >= 0 && t0_sz <= 8 && t1_sz >= 0 && t1_sz <= 8);
+	VIN(int64_t, t2_sz);
+	VASSUME(threads >= 1 && threads <= 3 && node_sz >= 0 && node_sz <= 64 && t0_sz >= 0 && t0_sz <= 8 && t1_sz >= 0 && t1_sz <= 8 && t2_sz >= 0 && t2_sz <= 8);
 	global_config.n_threads = threads;
 	n_nodes = 1;
-	load_size[2] = node_sz;
+	load_size[3] = node_sz;
 	load_size[0] = t0_sz;
 	load_size[1] = t1_sz;
-	FILE *out = &fake_files[3];
+	load_size[2] = t2_sz;
+	FILE *out = &fake_files[4];
 	stats_file_final_write(out);
 	unsigned k = 0;
 	VASSERT(chunk_sz[k] == 2 && chunk_data[k][0] == 0x0f && chunk_data[k][1] == 0xf0, "C20.final endianness magic first");
@@ -204,9 +207,14 @@ void h_final_write(void)
 	memcpy(&cnt, chunk_data[k], 8);
 	VASSERT(chunk_sz[k] == 8 && cnt == t0_sz && chunk_sz[k + 1] == (size_t)t0_sz, "C20.final thread 0 array preceded by its size");
 	k += 2;
-	if(threads == 2) {
+	if(threads >= 2) {
 		memcpy(&cnt, chunk_data[k], 8);
 		VASSERT(chunk_sz[k] == 8 && cnt == t1_sz && chunk_sz[k + 1] == (size_t)t1_sz, "C20.final thread 1 array preceded by its size");
+		k += 2;
+	}
+	if(threads >= 3) {
+		memcpy(&cnt, chunk_data[k], 8);
+		VASSERT(chunk_sz[k] == 8 && cnt == t2_sz && chunk_sz[k + 1] == (size_t)t2_sz, "C20.final thread 2 array preceded by its size");
 		k += 2;
 	}
 	VASSERT(n_chunks == k, "C20.final nothing else is written");
@@ -228,7 +236,7 @@ void h_files_receive(void)
 	slave_threads = in_slave_threads;
 	rcv_calls = 0;
 	n_nodes = 2;
-	FILE *out = &fake_files[3];
+	FILE *out = &fake_files[4];
 	stats_files_receive(out);
 	VASSERT(rcv_calls == 2 + in_slave_threads, "C20.receive the master collects exactly the header, the node array and one array per thread of the SENDING rank");
 	VASSERT(n_chunks == 1 + 2 * (1 + in_slave_threads), "C20.receive the rank's block is its header followed by (1 + t_cnt) size-prefixed arrays, as the layout documents");
@@ -244,4 +252,46 @@ void h_files_receive(void)
 		}
 	VCANARY("h_files_receive reachable");
 	VCOVER(master_threads != in_slave_threads, "h_files_receive covers ranks with different thread counts");
+}
+
+/* stats_init: the calling thread's temporary file goes into the calling thread's slot, other slots untouched */
+void h_stats_init(void)
+{
+	env_reset();
+	VIN(unsigned, in_rid);
+	VIN(unsigned, g);
+	VASSUME(in_rid < 3 && g < 3);
+	rid = in_rid;
+	FILE *before = stats_tmps[g];
+	stats_init();
+	VASSERT(stats_tmps[in_rid] == &fake_files[5], "C20.init the calling thread's records go to a file of its own, stored in its own slot");
+	VASSERT(g == in_rid || stats_tmps[g] == before, "C20.init other threads' files are untouched");
+	VCANARY("h_stats_init reachable");
+}
+
+/* stats_global_fini on a single rank: header fields, layout writer called on the opened file */
+void h_global_fini(void)
+{
+	env_reset();
+	VIN(unsigned, threads);
+	VIN(lp_id_t, n_lps);
+	VASSUME(threads >= 1 && threads <= 3);
+	global_config.n_threads = threads;
+	n_lps_node = n_lps;
+	n_nodes = 1;
+	nid = 0;
+	static FILE *heap_tmps[3];
+	heap_tmps[0] = &fake_files[0]; heap_tmps[1] = &fake_files[1]; heap_tmps[2] = &fake_files[2];
+	stats_tmps = malloc(3 * sizeof(FILE *));
+	VASSUME(stats_tmps != NULL);
+	for(unsigned k = 0; k < 3; k++)
+		stats_tmps[k] = heap_tmps[k];
+	stats_global_fini();
+	VASSERT(stats_glob_cur.threads_count == threads && stats_glob_cur.lps_count == n_lps, "C20.fini the node header announces the rank's thread and LP counts");
+	uint64_t tc;
+	unsigned hdr = 2 + 2 * STATS_COUNT + 1;
+	memcpy(&tc, chunk_data[hdr], 8);
+	VASSERT(chunk_sz[hdr] == sizeof(struct stats_global) && tc == threads, "C20.fini the header written to the file carries the thread count used for the per-thread arrays");
+	VASSERT(n_chunks == hdr + 1 + 2 + 2 * threads, "C20.fini one size-prefixed array per thread follows the node array");
+	VCANARY("h_global_fini reachable");
 }
